@@ -158,7 +158,7 @@ pub fn setup(cfg: Cfg, nflows: usize) -> Result<Setup, String> {
 }
 
 pub fn run_c07(rep: &mut Report, thorough: bool) {
-    rep.rule = "breadth-first search from the empty connection table; alphabet per flow: SYN, PSH|ACK with 6 acknowledgement numbers x complete request, 4 sequence numbers (incl. wrap with payload), payload shapes (empty, 1 byte, complete request, halves, cut inside the signature), PSH|ACK with each extra flag, bare ACK, RST, RST|ACK, FIN|ACK x 3 seq/ack pairs, FIN; states = histories, de-duplicated on (canonical dump of the real table via hook H2, reference-model state); every transition judged by the reference connection model (answered-or-not, flags, seq/ack arithmetic, application verdict) and by the table-size oracle".into();
+    rep.rule = "breadth-first search from the empty connection table; alphabet per flow: SYN, PSH|ACK with 6 acknowledgement numbers x complete request, 4 sequence numbers (incl. wrap with payload), payload shapes (empty, 1 byte, complete request, halves, cut inside the signature), PSH|ACK with each extra flag, bare ACK, RST, RST|ACK, FIN|ACK x 3 seq/ack pairs, FIN; states = histories, de-duplicated on (canonical dump of the real table via hook H2, reference-model state); every transition judged by the reference connection model (answered-or-not, flags, seq/ack arithmetic, application verdict) and by the table-size oracle; ADDED LATER: TCP options and link-layer padding on data segments, a second complete request after the first (keep-alive), IPv4 / IPv4-mapped / IPv4-compatible IPv6 flows with equal ports, edge-cookie keys, and a validated flow that must stay accepted after 66000 other flows were validated".into();
     rep.assumptions = vec![
         "cookies are learned from SYN-ACKs before the search".into(),
         "abstentions: FIN|ACK with payload, flag sets not named by C06/C07, segments after the first answered request (header arithmetic still checked), PSH|ACK combined with RST/SYN/FIN behind a valid cookie".into(),
@@ -313,6 +313,58 @@ pub fn run_c07(rep: &mut Report, thorough: bool) {
         &mut rep.sink,
     );
     rep.stage("arith", "validated flow: 7 sequence numbers x 7 payload lengths x data offsets 5..15 (TCP options); FIN|ACK acknowledgement high half over all 65536 values", total, t0);
+    ack_neighbourhood(&s, rep, "C07");
+}
+
+/// Acknowledgement numbers around the cookie on a flow WITHOUT state: every value of the low half
+/// and of the high half (the other half correct), every XOR pattern with one byte value at two
+/// positions, and the complement: only cookie + 1 is accepted, nothing else allocates state.
+pub fn ack_neighbourhood(s: &Setup, rep: &mut Report, prop: &'static str) {
+    let t0 = std::time::Instant::now();
+    let f = s.flows[0].1.clone();
+    let c = s.cookies[&key_of(&f)];
+    let ok = c.wrapping_add(1);
+    let mut acks: Vec<u32> = Vec::new();
+    for w in 0..=0xffffu32 {
+        acks.push((ok & 0xffff0000) | w);
+        acks.push((ok & 0x0000ffff) | (w << 16));
+    }
+    for (i, j) in [(0u32, 1u32), (0, 2), (0, 3), (1, 2), (1, 3), (2, 3)] {
+        for b in 1..=255u32 {
+            acks.push((c ^ (b << (8 * i)) ^ (b << (8 * j))).wrapping_add(1));
+        }
+    }
+    for b in 1..=255u32 {
+        acks.push((c ^ (b * 0x01010101)).wrapping_add(1));
+    }
+    acks.push((!c).wrapping_add(1));
+    let total = acks.len() as u64;
+    let stage = format!("ack-neighbourhood-{}", prop.to_lowercase());
+    let opts = RunOpts::new(&stage).stateful().chunk(512).no_monitor();
+    let cfg = s.cfg.clone();
+    let st = stage.clone();
+    engine::run(
+        &s.cfg,
+        total,
+        &opts,
+        |i| vec![Cmd::Frame(f.tcp(1000, acks[i as usize], F_PSH | F_ACK, HTTP_REQ))],
+        |it: &Item, sk: &mut Sink| {
+            sk.count("frames", 1);
+            let a = acks[it.idx as usize];
+            let o = &it.outs[1];
+            if a == ok {
+                return;
+            }
+            if prop == "C07" && o.reply.is_some() {
+                sk.violation(Violation { prop: "C07".into(), key: "answered:data-without-valid-cookie".into(), what: format!("PSH|ACK with acknowledgement {:#010x} on a flow without state is answered (cookie + 1 = {:#010x})", a, ok), cfg: cfg.clone(), cmds: it.cmds.to_vec(), idx: it.idx, stage: st.clone() });
+            }
+            if prop == "C09" && o.n != 0 {
+                sk.violation(Violation { prop: "C09".into(), key: "state-from-wrong-ack".into(), what: format!("PSH|ACK with acknowledgement {:#010x} (cookie + 1 = {:#010x}) left {} entries in the connection table", a, ok, o.n), cfg: cfg.clone(), cmds: it.cmds.to_vec(), idx: it.idx, stage: st.clone() });
+            }
+        },
+        &mut rep.sink,
+    );
+    rep.stage(&stage, "acknowledgement numbers on a flow without state: all 65536 values of each half (other half correct), one byte value XORed at two / four positions (all values, all position pairs), complement", total, t0);
 }
 
 /// One process: `head` frames, then `n` other flows each sending one valid-cookie data segment
@@ -371,7 +423,7 @@ pub fn find_collisions(cfg: &Cfg, ntuples_log2: u32, rep: &mut Report) -> Vec<(F
 }
 
 pub fn run_c08(rep: &mut Report, thorough: bool) {
-    rep.rule = "BFS as in C07 over flows A, B (and C on IPv6, D from another client in the thorough tier) plus noise frames (ARP, ICMP echo, UDP of every application protocol, SYNs and wrong-ack data on unrelated tuples); on EVERY transition the differential oracle: reply(f | h) == reply(f | h restricted to the accepted data segments of f's own flow, on a fresh table), wall-clock fields masked; plus a no-dedup enumeration of all interleavings of two 3-segment requests with noise; plus (thorough) the same scenario on every pair of flows whose cookies collide among 2^18 SYN-swept tuples".into();
+    rep.rule = "BFS as in C07 over flows A, B (and C on IPv6, D from another client in the thorough tier) plus noise frames (ARP, ICMP echo, UDP of every application protocol, SYNs and wrong-ack data on unrelated tuples); on EVERY transition the differential oracle: reply(f | h) == reply(f | h restricted to the accepted data segments of f's own flow, on a fresh table), wall-clock fields masked; plus a no-dedup enumeration of all interleavings of two 3-segment requests with noise; plus (thorough) the same scenario on every pair of flows whose cookies collide among 2^18 SYN-swept tuples; ADDED LATER: 19 structured flow pairs (port swap, equal port sums, IPv4 vs IPv4-mapped IPv6 ...), datagram context switches against a fresh process, all ordered pairs (thorough: triples) of the base corpus and an L2-L4 frame set with the last reply compared with a fresh process".into();
     rep.assumptions = vec!["a violation is keyed cookie-alias only if the two interfering flows have EQUAL cookies (listed finding D13); any other interference is a violation".into()];
     let s = match setup(Cfg::base(), if thorough { 4 } else { 2 }) {
         Ok(s) => s,
@@ -454,14 +506,15 @@ pub fn context_switch(cfg: &Cfg, rep: &mut Report) {
         c1.sip = srv4b();
         let mut c3 = flow6(40001, 111);
         c3.sip = srv6b();
-        let ctx = [flow4(40000, 3478), c1, flow6(40000, 3478), c3];
+        // same destination address with another port, another address, both IP versions
+        let ctx = [flow4(40000, 3478), flow4(40000, 2049), c1, flow6(40000, 3478), flow6(40000, 2049), c3];
         let frames: Vec<Vec<u8>> = ctx.iter().map(|f| f.udp(&pl.bytes)).collect();
         let run = |cmds: &[Cmd]| -> Result<Vec<String>, String> {
             let mut d = crate::driver::Driver::spawn(cfg)?;
             let o = d.exec(cmds).map_err(|e| format!("{:?}", e))?;
             Ok(o.iter().map(|x| crate::mask::canon_reply(x.reply.as_deref())).collect())
         };
-        for order in [[0usize, 1, 2, 3], [3, 2, 1, 0], [1, 0, 3, 2]] {
+        for order in [[0usize, 1, 2, 3, 4, 5], [5, 4, 3, 2, 1, 0], [1, 0, 2, 4, 3, 5]] {
             let cmds: Vec<Cmd> = order.iter().map(|k| Cmd::Frame(frames[*k].clone())).collect();
             let together = match run(&cmds) {
                 Ok(v) => v,
@@ -497,7 +550,7 @@ pub fn context_switch(cfg: &Cfg, rep: &mut Report) {
         }
     }
     rep.sink.count("frames", n);
-    rep.stage("context-switch", "every datagram payload of the corpus x 3 orders of 4 contexts (2 IPv4 and 2 IPv6 destinations / port pairs) in one process, each reply compared with the reply from a fresh process", n, t0);
+    rep.stage("context-switch", "every datagram payload of the corpus x 3 orders of 6 contexts (per IP version: two ports of one destination address and another address) in one process, each reply compared with the reply from a fresh process", n, t0);
 }
 
 /// Pairs of distinct flows that a weakened cookie function would typically confuse: swapped
@@ -685,7 +738,7 @@ fn interleavings(s: &Setup, rep: &mut Report, thorough: bool) {
 }
 
 pub fn run_c09(rep: &mut Report, thorough: bool) {
-    rep.rule = "the table-size oracle |real table| == |reference set of validated flows| on every transition of the connection BFS (alphabet of C07 on 2-3 flows + noise), plus volume sweeps: all 65536 source ports each sending SYN (several accepted flag sets), PSH|ACK with every wrong acknowledgement of the C07 alphabet, FIN|ACK, RST, bare ACK; all base UDP / ICMP / ARP frames repeated; repeated valid PSH|ACK on one flow (growth exactly once)".into();
+    rep.rule = "the table-size oracle |real table| == |reference set of validated flows| on every transition of the connection BFS (alphabet of C07 on 2-3 flows + noise), plus volume sweeps: all 65536 source ports each sending SYN (several accepted flag sets), PSH|ACK with every wrong acknowledgement of the C07 alphabet, FIN|ACK, RST, bare ACK; all base UDP / ICMP / ARP frames repeated; repeated valid PSH|ACK on one flow (growth exactly once); ADDED LATER: 70000 distinct flows validated in one table (size == flows validated so far at every step, every flow still owns its partial request afterwards)".into();
     rep.assumptions = vec!["table size read through hook H2 after every frame".into()];
     let s = match setup(Cfg::base(), if thorough { 3 } else { 2 }) {
         Ok(s) => s,
@@ -811,6 +864,7 @@ pub fn run_c09(rep: &mut Report, thorough: bool) {
         &mut rep.sink,
     );
     rep.stage("growth-once", "200 valid data segments on one flow: table size stays 1", 200, t0);
+    ack_neighbourhood(&s, rep, "C09");
     // many validated flows in ONE table: size == number of flows validated so far (no pruning, no
     // cap, no wrap of a narrow counter), and afterwards every flow still owns its partial request
     let t0 = std::time::Instant::now();
